@@ -2,6 +2,8 @@ package props
 
 import (
 	"fmt"
+	"go/types"
+	"sort"
 	"go/constant"
 	"go/token"
 	"strings"
@@ -31,7 +33,9 @@ type c01Guard struct {
 	on, off   []string // verification flags set / cleared (others unknown)
 	m         c01Matcher
 	allowed   []c01Matcher // conditions that may control the guard: the edge where the matcher's region holds
+	required  []c01Matcher // conditions that must control the guard (the rule applies only there)
 	negative  bool
+	presence  bool // the test only selects behaviour (no rejection): check that it exists under exactly the listed controls
 }
 
 type c01Flags struct {
@@ -141,6 +145,10 @@ func (l *c01Loop) checkGuard(p *core.Program, fl *c01Flags, g c01Guard) (bool, s
 
 // checkGuardIn: the obligation within the region from start to end under env
 func (l *c01Loop) checkGuardIn(p *core.Program, env an.PEnv, g c01Guard, start, end *ssa.BasicBlock) (bool, string) {
+	return c01CheckGuardIn(p, env, g, start, end, an.FailKind{Result: 0, Kind: "false"})
+}
+
+func c01CheckGuardIn(p *core.Program, env an.PEnv, g c01Guard, start, end *ssa.BasicBlock, fk an.FailKind) (bool, string) {
 	stop := func(b *ssa.BasicBlock) bool { return b == end }
 	reach := an.PReach(start, env, stop)
 	var problems []string
@@ -160,28 +168,37 @@ func (l *c01Loop) checkGuardIn(p *core.Program, env an.PEnv, g c01Guard, start, 
 		if _, decided := an.PEval(iff.Cond, env); decided {
 			continue // decided by the context itself
 		}
-		found++
-		if g.negative {
-			return false, fmt.Sprintf("the check at %s is applied in this context, where the rule must not apply", p.Pos(an.InstrPos(iff)))
-		}
 		rej := b.Succs[1]
 		if failOnTrue {
 			rej = b.Succs[0]
 		}
+		rejects, whyNot := true, ""
 		if end != nil {
 			if rej == end || an.PReach(rej, env, stop)[end] {
-				problems = append(problems, fmt.Sprintf("the rejecting edge of the check at %s lets evaluation continue", p.Pos(an.InstrPos(iff))))
-				continue
+				rejects, whyNot = false, fmt.Sprintf("the rejecting edge of the check at %s lets evaluation continue", p.Pos(an.InstrPos(iff)))
 			}
-		} else if ok2, why := an.EdgeOutcome(p, b, rej, an.FailKind{Result: 0, Kind: "false"}); !ok2 {
-			problems = append(problems, fmt.Sprintf("check at %s does not reject: %s", p.Pos(an.InstrPos(iff)), why))
+		} else if ok2, why := c01EdgeRejects(p, env, b, rej, fk); !ok2 {
+			rejects, whyNot = false, fmt.Sprintf("check at %s does not reject: %s", p.Pos(an.InstrPos(iff)), why)
+		}
+		if g.presence {
+			rejects = true
+		}
+		if g.negative {
+			if rejects {
+				return false, fmt.Sprintf("the check at %s is applied in this context, where the rule must not apply", p.Pos(an.InstrPos(iff)))
+			}
+			continue
+		}
+		found++
+		if !rejects {
+			problems = append(problems, whyNot)
 			continue
 		}
 		// what controls the guard
 		bad := ""
 		for _, cc := range controlConds(b) {
 			d := cc.If.Block()
-			if !reach[d] || d == start || !start.Dominates(d) {
+			if !reach[d] || (end != nil && d == start) || !start.Dominates(d) {
 				continue
 			}
 			if _, decided := an.PEval(cc.If.Cond, env); decided {
@@ -196,6 +213,11 @@ func (l *c01Loop) checkGuardIn(p *core.Program, env an.PEnv, g c01Guard, start, 
 			if end != nil && other != end && !an.PReach(other, env, func(x *ssa.BasicBlock) bool { return x == end || x == d })[end] {
 				okc = true // the other outcome fails, or is a loop body that comes back to this very test
 			}
+			if end == nil {
+				if r2, _ := c01EdgeRejects(p, env, d, other, fk); r2 {
+					okc = true
+				}
+			}
 			for _, a := range g.allowed {
 				if m2, region := a(cc.If); m2 && region == cc.Truth {
 					okc = true
@@ -204,6 +226,17 @@ func (l *c01Loop) checkGuardIn(p *core.Program, env an.PEnv, g c01Guard, start, 
 			if !okc {
 				bad = fmt.Sprintf("the check at %s applies only under the condition at %s", p.Pos(an.InstrPos(iff)), p.Pos(an.InstrPos(cc.If)))
 				break
+			}
+		}
+		for _, rq := range g.required {
+			have := false
+			for _, cc := range controlConds(b) {
+				if m2, region := rq(cc.If); m2 && region == cc.Truth {
+					have = true
+				}
+			}
+			if !have && bad == "" {
+				bad = fmt.Sprintf("the check at %s is applied outside the condition the rule requires", p.Pos(an.InstrPos(iff)))
 			}
 		}
 		if bad != "" {
@@ -448,4 +481,546 @@ func c01ConstPhi(ph *ssa.Phi, depth int) bool {
 		}
 	}
 	return true
+}
+
+// c01EdgeRejects: every path from the edge (under env) ends in a rejecting return or a panic.
+// Falls back to the general path exploration (an.EdgeOutcome) on the region that env leaves reachable.
+var c01RejCache = map[string][2]string{}
+
+func c01EdgeRejects(p *core.Program, env an.PEnv, from, to *ssa.BasicBlock, fk an.FailKind) (bool, string) {
+	var ks []string
+	for v, c := range env {
+		ks = append(ks, v.Name()+"="+c.String())
+	}
+	sort.Strings(ks)
+	key := fmt.Sprintf("%s/%d>%d/%v/%s", core.FuncName(from.Parent()), from.Index, to.Index, fk, strings.Join(ks, ","))
+	if r, ok := c01RejCache[key]; ok {
+		return r[0] == "1", r[1]
+	}
+	ok, why := c01EdgeRejectsU(p, env, from, to, fk)
+	r := [2]string{"0", why}
+	if ok {
+		r[0] = "1"
+	}
+	c01RejCache[key] = r
+	return ok, why
+}
+
+func c01EdgeRejectsU(p *core.Program, env an.PEnv, from, to *ssa.BasicBlock, fk an.FailKind) (bool, string) {
+	if len(env) == 0 {
+		return an.EdgeOutcome(p, from, to, fk)
+	}
+	// region reachable under env; every Return in it must be rejecting when evaluated along the path
+	ok, why := an.EdgeOutcome(p, from, to, fk)
+	if ok {
+		return true, ""
+	}
+	// retry restricted to env-feasible blocks: a return outside the region is not reachable in this context
+	reach := an.PReach(to, env, nil)
+	for b := range reach {
+		if ret, isRet := b.Instrs[len(b.Instrs)-1].(*ssa.Return); isRet {
+			if an.AcceptingReturnPossible(ret, fk) {
+				return false, why
+			}
+		}
+	}
+	return true, ""
+}
+
+// ---- rules in the functions called by the interpreter ---------------------------------------------
+
+type c01FnGuard struct {
+	fn       string
+	flagsIdx int // parameter index of the flags (-1: none)
+	svIdx    int // parameter index of the signature version (-1: none)
+	g        c01Guard
+	fail     an.FailKind
+	// more context: parameters fixed to constants, branch conditions assumed
+	fix    map[int]int64
+	assume []c01Assume
+	// other kinds of obligation in the same context (instead of a guard when g.m == nil):
+	returns []string // exact set of return-value kinds reachable: "false", "true", "call:<callee>"
+	nocall  string   // this callee is not reachable
+}
+
+type c01Assume struct {
+	m      c01Matcher
+	holds  bool // the matcher's region holds / does not hold
+}
+
+func c01CheckFnGuard(p *core.Program, fg c01FnGuard) (bool, string, string) {
+	fn := p.Func(fg.fn)
+	if fn == nil {
+		return false, "function " + fg.fn + " not found", "-"
+	}
+	pos := p.Pos(fn.Pos())
+	var fl *c01Flags
+	if fg.flagsIdx >= 0 {
+		fl = c01FindFlags(p, fn, fg.flagsIdx)
+		if fl == nil {
+			return false, "flags parameter not recognised", pos
+		}
+	}
+	svs := fg.g.svs
+	if fg.svIdx < 0 || svs == nil {
+		svs = []int{-1}
+	}
+	for _, sv := range svs {
+		env := an.PEnv{}
+		if sv >= 0 {
+			env[fn.Params[fg.svIdx]] = constant.MakeInt64(int64(sv))
+		}
+		if fl != nil {
+			if why := fl.apply(env, fg.g.on, fg.g.off); why != "" {
+				return false, why, pos
+			}
+		}
+		for idx, v := range fg.fix {
+			if idx >= len(fn.Params) {
+				return false, "parameter list changed", pos
+			}
+			if isBoolT(fn.Params[idx].Type()) {
+				env[fn.Params[idx]] = constant.MakeBool(v != 0)
+			} else {
+				env[fn.Params[idx]] = constant.MakeInt64(v)
+			}
+		}
+		for _, as := range fg.assume {
+			n := 0
+			for _, b := range fn.Blocks {
+				if iff, isIf := b.Instrs[len(b.Instrs)-1].(*ssa.If); isIf {
+					if m, regionOnTrue := as.m(iff); m {
+						env[iff.Cond] = constant.MakeBool(regionOnTrue == as.holds)
+						n++
+					}
+				}
+			}
+			if n == 0 {
+				return false, "a condition this rule's context refers to is not present", pos
+			}
+		}
+		if fg.returns != nil {
+			_, rets := an.PReachRet(fn.Blocks[0], env, nil)
+			got := c01ReturnKinds(fn, env)
+			_ = rets
+			want := map[string]bool{}
+			for _, w := range fg.returns {
+				want[w] = true
+			}
+			var diff []string
+			for k := range got {
+				if !want[k] {
+					diff = append(diff, "unexpected outcome "+k)
+				}
+			}
+			for k := range want {
+				if !got[k] {
+					diff = append(diff, "missing outcome "+k)
+				}
+			}
+			if len(diff) > 0 {
+				sort.Strings(diff)
+				return false, strings.Join(diff, ", "), pos
+			}
+			continue
+		}
+		if fg.nocall != "" {
+			reach := an.PReach(fn.Blocks[0], env, nil)
+			for b := range reach {
+				for _, ins := range b.Instrs {
+					if c, isC := ins.(ssa.CallInstruction); isC && an.IsCall(c, fg.nocall) {
+						return false, fmt.Sprintf("%s is called at %s in this context", fg.nocall, p.Pos(an.InstrPos(ins))), pos
+					}
+				}
+			}
+			continue
+		}
+		ok, why := c01CheckGuardIn(p, env, fg.g, fn.Blocks[0], nil, fg.fail)
+		if !ok {
+			if sv >= 0 {
+				why = fmt.Sprintf("signature version %d: %s", sv, why)
+			}
+			return false, why, pos
+		}
+	}
+	return true, "", pos
+}
+
+// c01MaskNonZero: region { value & mask != 0 }
+func c01MaskNonZero(mask int64, atoms ...string) c01Matcher {
+	z := c01MaskZero(mask, atoms...)
+	return func(iff *ssa.If) (bool, bool) {
+		ok, zeroOnTrue := z(iff)
+		return ok, !zeroOnTrue
+	}
+}
+
+func fg(fn string, flagsIdx, svIdx int, g c01Guard, fail an.FailKind) c01FnGuard {
+	return c01FnGuard{fn: fn, flagsIdx: flagsIdx, svIdx: svIdx, g: g, fail: fail}
+}
+
+func c01FnGuards() []c01FnGuard {
+	bf := an.FailKind{Result: 0, Kind: "false"}
+	pre := "lib/script.(*SigChecker).evalChecksigPreTapscript"
+	tap := "lib/script.(*SigChecker).evalChecksigTapscript"
+	cse := "lib/script.CheckSignatureEncoding"
+	cpe := "lib/script.CheckPubKeyEncoding"
+	seq := "lib/script.CheckSequence"
+	sigEnc := an.MatchBoolCall(false, "lib/script.CheckSignatureEncoding")
+	return []c01FnGuard{
+		fg(pre, 5, 6, c01Guard{key: "checksig/sig-encoding", what: "signature encoding failure is fatal", svs: []int{svBase, svV0}, m: sigEnc}, bf),
+		fg(pre, 5, 6, c01Guard{key: "checksig/key-encoding", what: "public key encoding failure is fatal", svs: []int{svBase, svV0}, m: an.MatchBoolCall(false, "lib/script.CheckPubKeyEncoding"), allowed: []c01Matcher{an.MatchBoolCall(true, "lib/script.CheckSignatureEncoding")}}, bf),
+		fg(pre, 5, 6, c01Guard{key: "checksig/nullfail", what: "with NULLFAIL a failed check of a non-empty signature is fatal", svs: []int{svBase, svV0}, on: []string{"VER_NULLFAIL"}, m: an.MatchCmpConst(0, token.GTR, "len", "param#1"),
+			allowed: []c01Matcher{c01BoolVar(false)}}, bf),
+		fg(pre, 5, 6, c01Guard{key: "checksig/nullfail-off", what: "without NULLFAIL a failed check is not fatal", svs: []int{svBase, svV0}, off: []string{"VER_NULLFAIL"}, m: an.MatchCmpConst(0, token.GTR, "len", "param#1"), negative: true}, bf),
+		fg(pre, 5, 6, c01Guard{key: "checksig/find-and-delete", what: "with CONST_SCRIPTCODE a signature found in a base script's code is fatal", svs: []int{svBase}, on: []string{"VER_CONST_SCRIPTCODE"}, m: an.MatchCmpConst(0, token.GTR, "call:lib/script.delSig#1")}, bf),
+		fg(pre, 5, 6, c01Guard{key: "checksig/find-and-delete-v0", what: "witness v0 scripts do not search for the signature", svs: []int{svV0}, on: []string{"VER_CONST_SCRIPTCODE"}, m: an.MatchCmpConst(0, token.GTR, "call:lib/script.delSig#1"), negative: true}, bf),
+		fg(tap, 4, -1, c01Guard{key: "tapscript/weight", what: "a non-empty signature costs 50 weight units; a negative budget is fatal", m: an.MatchCmpConst(0, token.LSS, "field:lib/btc.ScriptExecutionData.M_validation_weight_left"),
+			allowed: []c01Matcher{an.MatchCmpConst(0, token.GTR, "len", "param#1")}}, bf),
+		fg(tap, 4, -1, c01Guard{key: "tapscript/empty-key", what: "an empty public key is fatal", m: an.MatchCmpConst(0, token.EQL, "len", "param#2"), allowed: []c01Matcher{an.MatchCmpConst(0, token.GTR, "len", "param#1"), an.MatchCmpConst(0, token.LEQ, "len", "param#1")}}, bf),
+		fg(tap, 4, -1, c01Guard{key: "tapscript/schnorr", what: "a non-empty signature for a 32-byte key must verify; an empty one is not verified", m: an.MatchBoolCall(false, "(*lib/script.SigChecker).CheckSchnorrSignature"),
+			required: []c01Matcher{an.MatchCmpConst(0, token.GTR, "len", "param#1"), an.MatchCmpConst(32, token.EQL, "len", "param#2")},
+			allowed: []c01Matcher{an.MatchCmpConst(32, token.EQL, "len", "param#2"), an.MatchCmpConst(0, token.GTR, "len", "param#1"), an.MatchCmpConst(0, token.LEQ, "len", "param#1"), an.MatchCmpConst(0, token.NEQ, "len", "param#2"), c01BoolVar(true)}}, bf),
+		fg(tap, 4, -1, c01Guard{key: "tapscript/unknown-key-discouraged", what: "unknown key types fail only with the discourage flag", off: []string{"VER_DIS_PUBKEYTYPE"}, m: an.MatchCmpConst(0, token.NEQ, "param#4"), negative: true}, bf),
+		fg(cse, 1, -1, c01Guard{key: "sigenc/der", what: "with DERSIG a non-DER signature is invalid", on: []string{"VER_DERSIG"}, m: an.MatchBoolCall(false, "lib/script.IsValidSignatureEncoding"), allowed: []c01Matcher{an.MatchCmpConst(0, token.NEQ, "len", "param#0")}}, bf),
+		fg(cse, 1, -1, c01Guard{key: "sigenc/der-strictenc", what: "with STRICTENC a non-DER signature is invalid", on: []string{"VER_STRICTENC"}, off: []string{"VER_DERSIG"}, m: an.MatchBoolCall(false, "lib/script.IsValidSignatureEncoding"), allowed: []c01Matcher{an.MatchCmpConst(0, token.NEQ, "len", "param#0")}}, bf),
+		fg(cse, 1, -1, c01Guard{key: "sigenc/none", what: "without DERSIG/LOW_S/STRICTENC any signature encoding passes", off: []string{"VER_DERSIG", "VER_STRICTENC", "VER_LOW_S"},
+			m: an.AnyOf(an.MatchBoolCall(false, "lib/script.IsValidSignatureEncoding"), an.MatchBoolCall(false, "lib/script.IsLowS"), an.MatchBoolCall(false, "lib/script.IsDefinedHashtypeSignature")), negative: true}, bf),
+		fg(cse, 1, -1, c01Guard{key: "sigenc/low-s", what: "with LOW_S a high-S signature is invalid", on: []string{"VER_LOW_S"}, off: []string{"VER_DERSIG", "VER_STRICTENC"}, m: an.MatchBoolCall(false, "lib/script.IsLowS"), allowed: []c01Matcher{an.MatchCmpConst(0, token.NEQ, "len", "param#0")}}, bf),
+		fg(cse, 1, -1, c01Guard{key: "sigenc/hashtype", what: "with STRICTENC an undefined hash type is invalid", on: []string{"VER_STRICTENC"}, off: []string{"VER_LOW_S"}, m: an.MatchBoolCall(false, "lib/script.IsDefinedHashtypeSignature"),
+			allowed: []c01Matcher{an.MatchCmpConst(0, token.NEQ, "len", "param#0"), an.MatchBoolCall(true, "lib/script.IsValidSignatureEncoding")}}, bf),
+		fg(cse, 1, -1, c01Guard{key: "sigenc/hashtype-off", what: "without STRICTENC the hash type is not restricted", off: []string{"VER_STRICTENC"}, m: an.MatchBoolCall(false, "lib/script.IsDefinedHashtypeSignature"), negative: true}, bf),
+		fg(cpe, 1, 2, c01Guard{key: "keyenc/strictenc", what: "with STRICTENC a key that is neither compressed nor uncompressed is invalid", svs: []int{svBase, svV0}, on: []string{"VER_STRICTENC"}, m: an.MatchBoolCall(false, "lib/script.IsCompressedOrUncompressedPubKey")}, bf),
+		fg(cpe, 1, 2, c01Guard{key: "keyenc/strictenc-off", what: "without STRICTENC the key form is not restricted", svs: []int{svBase}, off: []string{"VER_STRICTENC"},
+			m: an.AnyOf(an.MatchBoolCall(false, "lib/script.IsCompressedOrUncompressedPubKey"), an.MatchBoolCall(false, "lib/script.IsCompressedPubKey")), negative: true}, bf),
+		fg(cpe, 1, 2, c01Guard{key: "keyenc/witness-compressed", what: "with WITNESS_PUBKEYTYPE witness v0 keys must be compressed", svs: []int{svV0}, on: []string{"VER_WITNESS_PUBKEY"}, off: []string{"VER_STRICTENC"}, m: an.MatchBoolCall(false, "lib/script.IsCompressedPubKey")}, bf),
+		fg(cpe, 1, 2, c01Guard{key: "keyenc/witness-compressed-base", what: "base scripts accept uncompressed keys even with WITNESS_PUBKEYTYPE", svs: []int{svBase}, on: []string{"VER_WITNESS_PUBKEY"}, m: an.MatchBoolCall(false, "lib/script.IsCompressedPubKey"), negative: true}, bf),
+		fg(seq, -1, -1, c01Guard{key: "csv/tx-version", what: "CSV fails for transaction versions below 2", m: an.MatchCmpConst(2, token.LSS, "field:lib/btc.Tx.Version")}, bf),
+		fg(seq, -1, -1, c01Guard{key: "csv/input-disabled", what: "CSV fails when the input's sequence has the disable flag", m: c01MaskNonZero(1<<31, "field:lib/btc.TxIn.Sequence")}, bf),
+		fg(seq, -1, -1, c01Guard{key: "csv/compare", what: "CSV fails when the masked operand exceeds the masked input sequence", m: an.MatchCmpValues(token.GTR, []string{"param#2", "const:4259839"}, []string{"field:lib/btc.TxIn.Sequence", "const:4259839"})}, bf),
+		fg("lib/script.bts2int", -1, -1, c01Guard{key: "scriptnum/size", what: "numeric operands longer than 4 bytes fail", m: an.MatchCmpConst(4, token.GTR, "len", "param#0")}, an.FailKind{Kind: "any-return"}),
+		fg("lib/script.bts2int_ext", -1, -1, c01Guard{key: "scriptnum/size-ext", what: "numeric operands longer than the given maximum fail", m: an.MatchCmpValues(token.GTR, []string{"len", "param#0"}, []string{"param#1"})}, an.FailKind{Kind: "any-return"}),
+		fg("lib/script.(*scrStack).popInt", -1, -1, c01Guard{key: "scriptnum/minimal-pop", what: "with MINIMALDATA a non-minimal number fails", m: an.MatchBoolCall(false, "lib/script.is_minimal"), allowed: []c01Matcher{c01BoolParam(1, true)}}, an.FailKind{Kind: "any-return"}),
+		fg("lib/script.(*scrStack).topInt", -1, -1, c01Guard{key: "scriptnum/minimal-top", what: "with MINIMALDATA a non-minimal number fails", m: an.MatchBoolCall(false, "lib/script.is_minimal"), allowed: []c01Matcher{c01BoolParam(2, true)}}, an.FailKind{Kind: "any-return"}),
+	}
+}
+
+// c01BoolVar: a branch on a boolean variable (phi, named result cell or parameter); region = variable == val
+func c01BoolVar(val bool) c01Matcher {
+	return func(iff *ssa.If) (bool, bool) {
+		cond := iff.Cond
+		neg := false
+		for {
+			if u, ok := cond.(*ssa.UnOp); ok && u.Op == token.NOT {
+				neg = !neg
+				cond = u.X
+				continue
+			}
+			break
+		}
+		switch x := cond.(type) {
+		case *ssa.Phi:
+		case *ssa.UnOp:
+			if x.Op != token.MUL {
+				return false, false
+			}
+			if _, ok := x.X.(*ssa.Alloc); !ok {
+				return false, false
+			}
+		case *ssa.BinOp:
+			// len(sig) > 0 stored in a variable
+			if x.Op != token.GTR {
+				return false, false
+			}
+		default:
+			return false, false
+		}
+		return true, val != neg
+	}
+}
+
+// c01BoolParam: branch on a boolean parameter
+func c01BoolParam(idx int, val bool) c01Matcher {
+	return func(iff *ssa.If) (bool, bool) {
+		prm, ok := iff.Cond.(*ssa.Parameter)
+		if !ok || prm.Parent() == nil || idx >= len(prm.Parent().Params) || prm.Parent().Params[idx] != prm {
+			return false, false
+		}
+		return true, val
+	}
+}
+
+func isBoolT(t types.Type) bool {
+	b, ok := t.Underlying().(*types.Basic)
+	return ok && b.Info()&types.IsBoolean != 0
+}
+
+// c01ReturnKinds: kinds of the first result over the returns reachable under env
+func c01ReturnKinds(fn *ssa.Function, env an.PEnv) map[string]bool {
+	out := map[string]bool{}
+	reach := an.PReach(fn.Blocks[0], env, nil)
+	var kind func(v ssa.Value, depth int)
+	kind = func(v ssa.Value, depth int) {
+		if depth > 6 {
+			out["?"] = true
+			return
+		}
+		if c, ok := an.PEval(v, env); ok && c.Kind() == constant.Bool {
+			out[c.String()] = true
+			return
+		}
+		switch x := v.(type) {
+		case *ssa.Call:
+			out["call:"+an.CallName(x)] = true
+		case *ssa.Phi:
+			for i, e := range x.Edges {
+				if i < len(x.Block().Preds) && reach[x.Block().Preds[i]] {
+					kind(e, depth+1)
+				}
+			}
+		case *ssa.UnOp:
+			if x.Op == token.MUL {
+				// named result cell: collect the values stored in reachable blocks
+				if al, ok := x.X.(*ssa.Alloc); ok {
+					n := 0
+					for _, ref := range *al.Referrers() {
+						if st, ok := ref.(*ssa.Store); ok && reach[st.Block()] {
+							kind(st.Val, depth+1)
+							n++
+						}
+					}
+					if n == 0 {
+						out["false"] = true // zero value
+					}
+					return
+				}
+			}
+			out["?"] = true
+		default:
+			out["?"] = true
+		}
+	}
+	for b := range reach {
+		if ret, ok := b.Instrs[len(b.Instrs)-1].(*ssa.Return); ok && len(ret.Results) > 0 {
+			kind(ret.Results[0], 0)
+		}
+	}
+	return out
+}
+
+// c01CallArg: branch on the bool result of callee whose argument argIdx has the given provenance
+func c01CallArg(rejectWhen bool, callee string, argIdx int, atoms ...string) c01Matcher {
+	base := an.MatchBoolCall(rejectWhen, callee)
+	return func(iff *ssa.If) (bool, bool) {
+		ok, f := base(iff)
+		if !ok {
+			return false, false
+		}
+		cond := iff.Cond
+		for {
+			if u, isU := cond.(*ssa.UnOp); isU && u.Op == token.NOT {
+				cond = u.X
+				continue
+			}
+			break
+		}
+		call, isC := cond.(*ssa.Call)
+		if !isC || argIdx >= len(call.Call.Args) {
+			return false, false
+		}
+		if !an.HasAll(an.Atoms(call.Call.Args[argIdx]), atoms...) {
+			return false, false
+		}
+		return true, f
+	}
+}
+
+// c01MaskEq: region { value & mask == val }
+func c01MaskEq(mask, val int64, atoms ...string) c01Matcher {
+	return func(iff *ssa.If) (bool, bool) {
+		x, y, rel, ok := an.CondCmp(iff.Cond)
+		if !ok || (rel != token.EQL && rel != token.NEQ) {
+			return false, false
+		}
+		var bo *ssa.BinOp
+		if c, isC := an.ConstOf(y); isC && c.Int64() == val {
+			bo, _ = x.(*ssa.BinOp)
+		} else if c, isC := an.ConstOf(x); isC && c.Int64() == val {
+			bo, _ = y.(*ssa.BinOp)
+		}
+		if bo == nil || bo.Op != token.AND {
+			return false, false
+		}
+		var other ssa.Value
+		if c, isC := an.ConstOf(bo.Y); isC && c.Int64() == mask {
+			other = bo.X
+		} else if c, isC := an.ConstOf(bo.X); isC && c.Int64() == mask {
+			other = bo.Y
+		}
+		if other == nil || !an.HasAll(an.Atoms(other), atoms...) {
+			return false, false
+		}
+		return true, rel == token.EQL
+	}
+}
+
+// ---- orchestration: VerifyTxScript, witness programs, witness scripts ---------------------------------
+
+func c01OrchGuards() []c01FnGuard {
+	bf := an.FailKind{Result: 0, Kind: "false"}
+	vts := "lib/script.VerifyTxScript"
+	vwp := "lib/script.(*SigChecker).VerifyWitnessProgram"
+	ews := "lib/script.(*SigChecker).ExecuteWitnessScript"
+	ev := "lib/script.evalScript"
+	const sigScr = "field:lib/btc.TxIn.ScriptSig"
+	hookNil := matchNil(true, "global:lib/script.HookVerifyTxScript")
+	isWP := func(atoms ...string) c01Matcher {
+		return func(iff *ssa.If) (bool, bool) { // region: witness program recognised (program != nil)
+			ok, nilOnTrue := matchNil(true, append([]string{"call:lib/btc.IsWitnessProgram#1"}, atoms...)...)(iff)
+			return ok, !nilOnTrue
+		}
+	}
+	isP2SH := an.MatchBoolCall(true, "lib/btc.IsPayToScript")
+	mk := func(fn string, flagsIdx int, g c01Guard) c01FnGuard {
+		if fn == vts {
+			g.allowed = append(g.allowed, hookNil)
+		}
+		return c01FnGuard{fn: fn, flagsIdx: flagsIdx, svIdx: -1, g: g, fail: bf}
+	}
+	out := []c01FnGuard{
+		mk(vts, 2, c01Guard{key: "verify/sigpushonly", what: "with SIGPUSHONLY a scriptSig with non-push opcodes fails", on: []string{"VER_SIGPUSHONLY"}, m: c01CallArg(false, "lib/btc.IsPushOnly", 0, sigScr)}),
+		mk(vts, 2, c01Guard{key: "verify/scriptsig", what: "a failing scriptSig fails the input", m: c01CallArg(false, ev, 0, sigScr)}),
+		mk(vts, 2, c01Guard{key: "verify/scriptpubkey", what: "a failing scriptPubKey fails the input", m: c01CallArg(false, ev, 0, "param#0")}),
+		mk(vts, 2, c01Guard{key: "verify/empty-stack", what: "an empty stack after the scriptPubKey fails the input", m: an.MatchCmpConst(0, token.EQL, aSize)}),
+		mk(vts, 2, c01Guard{key: "verify/false-top", what: "a false top element after the scriptPubKey fails the input", m: an.MatchBoolCall(false, "(*lib/script.scrStack).topBool")}),
+		mk(vts, 2, c01Guard{key: "verify/witness-malleated", what: "a native witness program with a non-empty scriptSig fails", on: []string{"VER_WITNESS", "VER_P2SH"}, m: an.MatchCmpConst(0, token.NEQ, "len", sigScr),
+			required: []c01Matcher{isWP("param#0")}, allowed: []c01Matcher{isWP("param#0")}}),
+		mk(vts, 2, c01Guard{key: "verify/witness-program", what: "a native witness program must verify", on: []string{"VER_WITNESS", "VER_P2SH"}, m: c01CallArg(false, "(*lib/script.SigChecker).VerifyWitnessProgram", 5, "const:false"),
+			required: []c01Matcher{isWP("param#0")}, allowed: []c01Matcher{isWP("param#0")}}),
+		mk(vts, 2, c01Guard{key: "verify/witness-off", what: "without the WITNESS flag witness programs are not evaluated", off: []string{"VER_WITNESS"}, m: an.MatchBoolCall(false, "(*lib/script.SigChecker).VerifyWitnessProgram"), negative: true}),
+		mk(vts, 2, c01Guard{key: "verify/p2sh-pushonly", what: "P2SH: the scriptSig must be push-only", on: []string{"VER_P2SH"}, off: []string{"VER_SIGPUSHONLY"}, m: c01CallArg(false, "lib/btc.IsPushOnly", 0, sigScr),
+			required: []c01Matcher{isP2SH}, allowed: []c01Matcher{isP2SH, isWP("param#0")}}),
+		mk(vts, 2, c01Guard{key: "verify/p2sh-redeem", what: "P2SH: the redeem script (top of the scriptSig's stack) must succeed", on: []string{"VER_P2SH"}, m: c01CallArg(false, ev, 0, aPop),
+			required: []c01Matcher{isP2SH}, allowed: []c01Matcher{isP2SH, isWP("param#0")}}),
+		mk(vts, 2, c01Guard{key: "verify/p2sh-off", what: "without the P2SH flag the redeem script is not evaluated", off: []string{"VER_P2SH"}, m: c01CallArg(false, ev, 0, aPop), negative: true}),
+		mk(vts, 2, c01Guard{key: "verify/p2sh-witness-malleated", what: "P2SH-wrapped witness program: the scriptSig must be exactly the push of the redeem script", on: []string{"VER_P2SH", "VER_WITNESS"}, m: an.MatchBoolCallAtoms(false, "bytes.Equal", sigScr, aPop),
+			required: []c01Matcher{isP2SH, isWP(aPop)}, allowed: []c01Matcher{isP2SH, isWP(aPop), isWP("param#0")}}),
+		mk(vts, 2, c01Guard{key: "verify/p2sh-witness-program", what: "a P2SH-wrapped witness program must verify (as P2SH)", on: []string{"VER_P2SH", "VER_WITNESS"}, m: c01CallArg(false, "(*lib/script.SigChecker).VerifyWitnessProgram", 5, "const:true"),
+			required: []c01Matcher{isP2SH, isWP(aPop)}, allowed: []c01Matcher{isP2SH, isWP(aPop), isWP("param#0")}}),
+		mk(vts, 2, c01Guard{key: "verify/cleanstack", what: "with CLEANSTACK exactly one element must remain", on: []string{"VER_CLEANSTACK", "VER_P2SH", "VER_WITNESS"}, m: an.MatchCmpConst(1, token.NEQ, aSize),
+			allowed: []c01Matcher{isP2SH, isWP("param#0"), isWP(aPop)}}),
+		mk(vts, 2, c01Guard{key: "verify/cleanstack-off", what: "without CLEANSTACK extra stack elements are allowed", off: []string{"VER_CLEANSTACK"}, m: an.MatchCmpConst(1, token.NEQ, aSize), negative: true}),
+		mk(vts, 2, c01Guard{key: "verify/witness-unexpected", what: "witness data for an input that is not a witness program fails", on: []string{"VER_WITNESS", "VER_P2SH"}, m: an.MatchBoolCall(false, "(*lib/script.witness_ctx).IsNull"),
+			required: []c01Matcher{c01BoolVar(false)}, allowed: []c01Matcher{isP2SH, isWP("param#0"), isWP(aPop), c01BoolVar(false)}}),
+
+		// witness program dispatch
+		{fn: vwp, flagsIdx: 4, svIdx: -1, fix: map[int]int64{2: 0}, fail: bf, returns: []string{"false", "call:(*lib/script.SigChecker).ExecuteWitnessScript"},
+			g: c01Guard{key: "witness/v0-outcomes", what: "version 0: the verdict is the witness script's verdict or failure (wrong program length, empty witness, hash mismatch)"}},
+		{fn: vwp, flagsIdx: 4, svIdx: -1, fix: map[int]int64{2: 0}, fail: bf,
+			assume: []c01Assume{{an.MatchCmpConst(32, token.EQL, "len", "param#3"), false}, {an.MatchCmpConst(20, token.EQL, "len", "param#3"), false}}, returns: []string{"false"},
+			g: c01Guard{key: "witness/v0-wrong-length", what: "version 0 programs that are neither 20 nor 32 bytes fail"}},
+		{fn: vwp, flagsIdx: 4, svIdx: -1, fix: map[int]int64{2: 0}, fail: bf, g: c01Guard{key: "witness/v0-p2wsh-empty", what: "P2WSH with an empty witness fails", m: an.MatchCmpConst(0, token.EQL, aSize),
+			required: []c01Matcher{an.MatchCmpConst(32, token.EQL, "len", "param#3")}, allowed: []c01Matcher{an.MatchCmpConst(32, token.EQL, "len", "param#3")}}},
+		{fn: vwp, flagsIdx: 4, svIdx: -1, fix: map[int]int64{2: 0}, fail: bf, g: c01Guard{key: "witness/v0-p2wsh-hash", what: "P2WSH: SHA256 of the witness script must equal the program", m: an.MatchBoolCallAtoms(false, "bytes.Equal", "param#3", "call:crypto/sha256.New", "call:(hash.Hash).Sum"),
+			required: []c01Matcher{an.MatchCmpConst(32, token.EQL, "len", "param#3")}, allowed: []c01Matcher{an.MatchCmpConst(32, token.EQL, "len", "param#3")}}},
+		{fn: vwp, flagsIdx: 4, svIdx: -1, fix: map[int]int64{2: 0}, fail: bf, g: c01Guard{key: "witness/v0-p2wpkh-items", what: "P2WPKH needs exactly two witness items", m: an.MatchCmpConst(2, token.NEQ, aSize),
+			required: []c01Matcher{an.MatchCmpConst(20, token.EQL, "len", "param#3")}, allowed: []c01Matcher{an.MatchCmpConst(20, token.EQL, "len", "param#3"), an.MatchCmpConst(32, token.NEQ, "len", "param#3")}}},
+		{fn: vwp, flagsIdx: 4, svIdx: -1, fix: map[int]int64{2: 2}, fail: bf, returns: []string{"true"},
+			g: c01Guard{key: "witness/unknown-version", what: "unknown witness versions succeed (soft-fork compatibility)", off: []string{"VER_WITNESS_PROG"}}},
+		{fn: vwp, flagsIdx: 4, svIdx: -1, fix: map[int]int64{2: 16}, fail: bf, returns: []string{"false"},
+			g: c01Guard{key: "witness/unknown-version-discouraged", what: "unknown witness versions fail with DISCOURAGE_UPGRADABLE_WITNESS_PROGRAM", on: []string{"VER_WITNESS_PROG"}}},
+		{fn: vwp, flagsIdx: 4, svIdx: -1, fix: map[int]int64{2: 1, 5: 1}, fail: bf, returns: []string{"true"},
+			g: c01Guard{key: "witness/v1-p2sh-not-taproot", what: "a P2SH-wrapped version 1 program is not taproot: succeeds as unknown", off: []string{"VER_WITNESS_PROG"}, on: []string{"VER_TAPROOT"}}},
+		{fn: vwp, flagsIdx: 4, svIdx: -1, fix: map[int]int64{2: 1, 5: 0}, fail: bf, assume: []c01Assume{{an.MatchCmpConst(32, token.EQL, "len", "param#3"), false}}, returns: []string{"true"},
+			g: c01Guard{key: "witness/v1-not-32", what: "version 1 programs that are not 32 bytes succeed as unknown", off: []string{"VER_WITNESS_PROG"}, on: []string{"VER_TAPROOT"}}},
+		{fn: vwp, flagsIdx: 4, svIdx: -1, fix: map[int]int64{2: 1, 5: 0}, fail: bf, assume: []c01Assume{{an.MatchCmpConst(32, token.EQL, "len", "param#3"), true}}, returns: []string{"true"},
+			g: c01Guard{key: "witness/taproot-inactive", what: "without the TAPROOT flag a taproot output is anyone-can-spend", off: []string{"VER_TAPROOT"}}},
+		{fn: vwp, flagsIdx: 4, svIdx: -1, fix: map[int]int64{2: 1, 5: 0}, fail: bf, assume: []c01Assume{{an.MatchCmpConst(32, token.EQL, "len", "param#3"), true}},
+			returns: []string{"false", "call:(*lib/script.SigChecker).CheckSchnorrSignature", "call:(*lib/script.SigChecker).ExecuteWitnessScript"},
+			g: c01Guard{key: "witness/taproot-outcomes", what: "taproot: key-path Schnorr verdict, tapscript verdict, or failure; unknown leaf versions fail when discouraged", on: []string{"VER_TAPROOT", "VER_DIS_TAPVER"}}},
+		{fn: vwp, flagsIdx: 4, svIdx: -1, fix: map[int]int64{2: 1, 5: 0}, fail: bf, assume: []c01Assume{{an.MatchCmpConst(32, token.EQL, "len", "param#3"), true}},
+			returns: []string{"false", "true", "call:(*lib/script.SigChecker).CheckSchnorrSignature", "call:(*lib/script.SigChecker).ExecuteWitnessScript"},
+			g: c01Guard{key: "witness/taproot-unknown-leaf", what: "taproot: unknown leaf versions succeed when not discouraged", on: []string{"VER_TAPROOT"}, off: []string{"VER_DIS_TAPVER"}}},
+	}
+	tr := func(g c01Guard) c01FnGuard {
+		g.on = append(g.on, "VER_TAPROOT")
+		return c01FnGuard{fn: vwp, flagsIdx: 4, svIdx: -1, fix: map[int]int64{2: 1, 5: 0}, fail: bf, assume: []c01Assume{{an.MatchCmpConst(32, token.EQL, "len", "param#3"), true}}, g: g}
+	}
+	sizeIs1 := an.MatchCmpConst(1, token.EQL, aSize)
+	sizeNot1 := an.MatchCmpConst(1, token.NEQ, aSize)
+	annexCtl := []c01Matcher{an.MatchCmpConst(2, token.GEQ, aSize), an.MatchCmpConst(0, token.GTR, "len", aTop), an.MatchCmpConst(0x50, token.EQL, "elem", aTop),
+		an.MatchCmpConst(2, token.LSS, aSize), an.MatchCmpConst(0, token.LEQ, "len", aTop), an.MatchCmpConst(0x50, token.NEQ, "elem", aTop)}
+	out = append(out,
+		tr(c01Guard{key: "taproot/empty-witness", what: "taproot spend with an empty witness fails", m: an.MatchCmpConst(0, token.EQL, aSize)}),
+		tr(c01Guard{key: "taproot/annex", what: "the last witness item is an annex only if there are at least two items and it starts with 0x50", presence: true, m: an.MatchCmpConst(0x50, token.EQL, "elem", aTop),
+			required: []c01Matcher{an.MatchCmpConst(2, token.GEQ, aSize), an.MatchCmpConst(0, token.GTR, "len", aTop)}, allowed: []c01Matcher{an.MatchCmpConst(2, token.GEQ, aSize), an.MatchCmpConst(0, token.GTR, "len", aTop)}}),
+		tr(c01Guard{key: "taproot/key-path", what: "exactly one remaining witness item selects the key path", presence: true, m: an.MatchCmpConst(1, token.EQL, aSize), allowed: annexCtl}),
+		tr(c01Guard{key: "taproot/control-min", what: "control block shorter than 33 bytes fails", m: an.MatchCmpConst(33, token.LSS, "len", aPop), allowed: append([]c01Matcher{sizeNot1}, annexCtl...)}),
+		tr(c01Guard{key: "taproot/control-max", what: "control block longer than 33+32*128 bytes fails", m: an.MatchCmpConst(33+32*128, token.GTR, "len", aPop), allowed: append([]c01Matcher{sizeNot1}, annexCtl...)}),
+		tr(c01Guard{key: "taproot/control-step", what: "control block length must be 33 + 32k", m: c01ModNonZero(33, 32, "len", aPop), allowed: append([]c01Matcher{sizeNot1}, annexCtl...)}),
+		tr(c01Guard{key: "taproot/commitment", what: "the script and control block must commit to the output key", m: an.MatchBoolCall(false, "lib/script.VerifyTaprootCommitment"), allowed: append([]c01Matcher{sizeNot1}, annexCtl...)}),
+		tr(c01Guard{key: "taproot/leaf-version", what: "leaf version (control[0] & 0xfe) == 0xc0 selects tapscript", m: func(iff *ssa.If) (bool, bool) {
+			ok, eqOnTrue := c01MaskEq(0xfe, 0xc0, "elem", aPop)(iff)
+			return ok, !eqOnTrue // "rejecting" region = not tapscript; checked through the outcomes rules, here only presence
+		}, negative: false, allowed: append([]c01Matcher{sizeNot1, an.MatchBoolCall(true, "lib/script.VerifyTaprootCommitment")}, annexCtl...), on: []string{"VER_DIS_TAPVER"}}),
+	)
+	_ = sizeIs1
+	scanLoop := an.MatchCmpValues(token.LSS, []string{"call:lib/btc.GetOpcode#2"}, []string{"len", "param#2"})
+	scanDone := an.MatchCmpValues(token.GEQ, []string{"call:lib/btc.GetOpcode#2"}, []string{"len", "param#2"})
+	itemLoop := an.MatchCmpValues(token.LSS, nil, []string{"call:(*lib/script.scrStack).size", "param#1"})
+	itemDone := an.MatchCmpValues(token.GEQ, nil, []string{"call:(*lib/script.scrStack).size", "param#1"})
+	notSuccess := an.MatchBoolCall(false, "lib/script.IsOpSuccess")
+	ex := func(svs []int, g c01Guard) c01FnGuard {
+		g.svs = svs
+		g.allowed = append(g.allowed, scanLoop, scanDone, itemLoop, itemDone, notSuccess)
+		return c01FnGuard{fn: ews, flagsIdx: 3, svIdx: 4, fail: bf, g: g}
+	}
+	out = append(out,
+		ex([]int{svTap}, c01Guard{key: "wscript/parse", what: "tapscript that does not parse fails (unless an OP_SUCCESS came first)", m: matchNil(false, "call:lib/btc.GetOpcode#3")}),
+		ex([]int{svTap}, c01Guard{key: "wscript/op-success-discouraged", what: "OP_SUCCESSx fails with DISCOURAGE_OP_SUCCESS", on: []string{"VER_DIS_SUCCESS"}, m: an.MatchBoolCall(true, "lib/script.IsOpSuccess")}),
+		ex([]int{svTap}, c01Guard{key: "wscript/initial-stack", what: "tapscript: more than 1000 initial stack items fail", m: an.MatchCmpConst(1000, token.GTR, aSize)}),
+		ex([]int{svV0}, c01Guard{key: "wscript/initial-stack-v0", what: "witness v0 has no initial stack limit", m: an.MatchCmpConst(1000, token.GTR, aSize), negative: true}),
+		ex([]int{svV0, svTap}, c01Guard{key: "wscript/item-size", what: "witness stack items longer than 520 bytes fail", m: an.MatchCmpConst(520, token.GTR, "len", "call:(*lib/script.scrStack).at")}),
+		ex([]int{svV0, svTap}, c01Guard{key: "wscript/eval", what: "the witness script must succeed", m: an.MatchBoolCall(false, ev)}),
+		ex([]int{svV0, svTap}, c01Guard{key: "wscript/cleanstack", what: "the witness script must leave exactly one element", m: an.MatchCmpConst(1, token.NEQ, aSize)}),
+		ex([]int{svV0, svTap}, c01Guard{key: "wscript/true", what: "the remaining element must be true", m: an.MatchBoolCall(false, "(*lib/script.scrStack).topBool")}),
+		c01FnGuard{fn: ews, flagsIdx: 3, svIdx: -1, fix: map[int]int64{4: svV0}, fail: bf, nocall: "lib/script.IsOpSuccess", g: c01Guard{key: "wscript/op-success-only-tapscript", what: "OP_SUCCESS pre-scan only for tapscript"}},
+		// interpreter prologue / epilogue
+		c01FnGuard{fn: ev, flagsIdx: 3, svIdx: 4, fail: bf, g: c01Guard{key: "script-size", what: "base/v0 scripts longer than 10000 bytes fail", svs: []int{svBase, svV0}, m: an.MatchCmpConst(10000, token.GTR, "len", "param#0")}},
+		c01FnGuard{fn: ev, flagsIdx: 3, svIdx: 4, fail: bf, g: c01Guard{key: "script-size-tapscript", what: "tapscript has no script size limit", svs: []int{svTap}, m: an.MatchCmpConst(10000, token.GTR, "len", "param#0"), negative: true}},
+	)
+	return out
+}
+
+// c01ModNonZero: region { (value - base) % mod != 0 }
+func c01ModNonZero(base, mod int64, atoms ...string) c01Matcher {
+	return func(iff *ssa.If) (bool, bool) {
+		x, y, rel, ok := an.CondCmp(iff.Cond)
+		if !ok || (rel != token.EQL && rel != token.NEQ) {
+			return false, false
+		}
+		var bo *ssa.BinOp
+		if c, isC := an.ConstOf(y); isC && c.Sign() == 0 {
+			bo, _ = x.(*ssa.BinOp)
+		} else if c, isC := an.ConstOf(x); isC && c.Sign() == 0 {
+			bo, _ = y.(*ssa.BinOp)
+		}
+		if bo == nil || bo.Op != token.REM {
+			return false, false
+		}
+		if c, isC := an.ConstOf(bo.Y); !isC || c.Int64() != mod {
+			return false, false
+		}
+		sub, isB := bo.X.(*ssa.BinOp)
+		if !isB || sub.Op != token.SUB {
+			return false, false
+		}
+		if c, isC := an.ConstOf(sub.Y); !isC || c.Int64() != base {
+			return false, false
+		}
+		if !an.HasAll(an.Atoms(sub.X), atoms...) {
+			return false, false
+		}
+		return true, rel == token.NEQ
+	}
 }
